@@ -1,7 +1,7 @@
 (* C06 — finite-domain theorems (negotiation table, retry table, alignment matrix) *)
 From Coq Require Import NArith List Bool Arith Lia.
 Import ListNotations.
-From LTV.C06 Require Import ParamsGen Model.
+From LTV.C06 Require Import ParamsProbe Model.
 
 Lemma params_ok_now : params_ok = true.
 Proof. vm_compute. reflexivity. Qed.
@@ -22,14 +22,14 @@ Definition table_row (strict : bool) (p : policy) : bool :=
   forallb (fun incoming => forallb (fun o =>
     noretry_cell incoming p o ||
     forallb (fun pa => forallb (fun pb => forallb (fun ia =>
-      spec_ok strict incoming p o (negotiate incoming p o pa pb ia 0)) bools) pads2) pads2) all_offers) bools.
+      spec_ok strict incoming p o (negotiate incoming p o pa pb ia 0)) bools) pads5) pads5) all_offers) bools.
 
 Lemma table_all : forallb (table_row false) all_policies = true.
 Proof. vm_compute. reflexivity. Qed.
 
 Lemma negotiation_table :
   forall incoming p o pa pb ia,
-    In p all_policies -> In o all_offers -> In pa pads2 -> In pb pads2 ->
+    In p all_policies -> In o all_offers -> In pa pads5 -> In pb pads5 ->
     noretry_cell incoming p o = false ->
     spec_ok false incoming p o (negotiate incoming p o pa pb ia 0) = true.
 Proof.
@@ -49,9 +49,17 @@ Example negotiation_table_nonvacuous :
   negotiate true (mkPolicy Prefer Prefer false Allow) (OMse 3) 512 512 true 0 = NSucc true 2 1 true 5.
 Proof. vm_compute. repeat split; auto 20. Qed.
 
+Lemma noretry_all : forallb (fun pa => forallb (fun pb =>
+  match negotiate false (mkPolicy Prefer Require false Allow) OPlain pa pb false 0 with NFail 1 => true | _ => false end) pads5) pads5 = true.
+Proof. vm_compute. reflexivity. Qed.
+
 Lemma noretry_cell_fails_cleanly :
-  forall pa pb, In pa pads2 -> In pb pads2 -> negotiate false (mkPolicy Prefer Require false Allow) OPlain pa pb false 0 = NFail 1.
-Proof. intros pa pb Ha Hb. simpl in Ha, Hb. destruct Ha as [<-|[<-|[]]]; destruct Hb as [<-|[<-|[]]]; vm_compute; reflexivity. Qed.
+  forall pa pb, In pa pads5 -> In pb pads5 -> negotiate false (mkPolicy Prefer Require false Allow) OPlain pa pb false 0 = NFail 1.
+Proof.
+  intros pa pb Ha Hb. pose proof noretry_all as T. rewrite forallb_forall in T. specialize (T pa Ha).
+  rewrite forallb_forall in T. specialize (T pb Hb).
+  destruct (negotiate false (mkPolicy Prefer Require false Allow) OPlain pa pb false 0) as [| [|[|]] | | |]; try discriminate. reflexivity.
+Qed.
 
 (* strict reading (stream policy also governs plain handshakes): false of the faithful model *)
 Lemma strict_stream_policy_refuted :
